@@ -21,6 +21,10 @@ SEQ = ["ins:3,ins:1,ins:4,ins:2,era:3,ins:5,era:1,ins:3,upd1:2,ins:6,era:4;find:
 
 def run(ctx):
     q = ctx.quick()
+    # Tier B: IterList.tla started from a list with an emptied node in front of a live one; quiescent invariant FinalSorted / ListMatches.
+    # Refuted: seeded change C18b (find_prev re-check before the data pointers are marked)
+    vlib.model_check_many(ctx, [dict(module_rel="list/IterListMC.tla", cfg_rel="list/IterList_q2e.cfg", workers=2),
+                                dict(module_rel="list/IterListMC.tla", cfg_rel="list/IterList_bad_earlyfindprev.cfg", workers=2, expect_violation="ListMatches")], par=2)
     n = 1 if q else 8
     jobs = []
     groups = []
